@@ -9,10 +9,12 @@
  *   x credential + signature scheme (RSA-2048, ECDSA P-256/384/521, Ed25519; rsa_pkcs1, rsa_pss_rsae, ecdsa, ed25519)
  *   x client authentication (no / yes)
  *   x resumption (none / session id / RFC 5077 ticket / TLS 1.3 PSK ticket)
+ *   x extended master secret (negotiated / not negotiated, TLS <= 1.2)
  *   [x OpenSSL client with defaults / with SSL_OP_LEGACY_SERVER_CONNECT, for MatrixSSL-server cells <= 1.2]
  * and inside every cell application payloads of all sizes {1, 16383, 16384, 16385, 40000} (DTLS: {1, 16, 999, 1000})
  * are sent in both directions, on the first AND on the resumed connection.  Each cell runs in a forked child
  * (the MatrixSSL session cache is process-global). */
+#define OPENSSL_SUPPRESS_DEPRECATED     /* RAND_set_rand_method: pin OpenSSL's randomness per cell */
 #include "mxv.h"
 #include "c10_creds.h"
 #include <unistd.h>
@@ -23,6 +25,7 @@
 #include <openssl/x509_vfy.h>
 #include <openssl/evp.h>
 #include <openssl/bio.h>
+#include <openssl/rand.h>
 
 /* ------------------------------------------------------------------------------------------ tables */
 enum { R_MCLI = 0, R_MSRV = 1 };
@@ -67,6 +70,8 @@ typedef struct {
     int role, ver;
     uint16_t suite;
     int group, hrr, cred, sig, cauth, resm, legacy;
+    int cookie;     /* DTLS, MatrixSSL client: the OpenSSL server demands a HelloVerifyRequest cookie round trip */
+    int noems;      /* TLS <= 1.2: OpenSSL does not negotiate extended_master_secret (RFC 7627) => plain RFC 5246 master secret */
 } cell_t;
 
 /* suites compiled into MatrixSSL, with the name OpenSSL knows them by (NULL: OpenSSL does not have it) */
@@ -137,6 +142,37 @@ static const char *alert_name(int d)
     }
     snprintf(tmp, sizeof(tmp), "alert_%d", d);
     return tmp;
+}
+
+/* ------------------------------------------------------------------------ OpenSSL randomness, pinned per cell */
+static uint64_t orng[2];
+static long g_seed;
+static uint64_t orng_next(void)
+{
+    uint64_t a = orng[0], b = orng[1];
+    orng[0] = b;
+    a ^= a << 23;
+    orng[1] = a ^ b ^ (a >> 17) ^ (b >> 26);
+    return orng[1] + b;
+}
+static int orng_bytes(unsigned char *buf, int num)
+{
+    int i;
+    for (i = 0; i < num; i++)
+    {
+        buf[i] = (unsigned char) (orng_next() >> 32);
+    }
+    return 1;
+}
+static int orng_seed(const void *buf, int num) { (void) buf; (void) num; return 1; }
+static int orng_add(const void *buf, int num, double r) { (void) buf; (void) num; (void) r; return 1; }
+static int orng_status(void) { return 1; }
+static const RAND_METHOD orng_meth = { orng_seed, orng_bytes, NULL, orng_add, orng_bytes, orng_status };
+static void orng_reset(uint64_t seed)
+{
+    orng[0] = seed * 0x9E3779B97F4A7C15ULL + 1;
+    orng[1] = (seed ^ 0xC10C10C10ULL) * 0xD1342543DE82EF95ULL + 7;
+    RAND_set_rand_method(&orng_meth);
 }
 
 /* ---------------------------------------------------------------------------- OpenSSL output queue BIO */
@@ -213,6 +249,9 @@ typedef struct {
     int m_alert_sent_lvl, m_alert_sent_desc; /* plaintext alerts only; encrypted ones show as o_alert_recv */
     int m_cert_cb_calls, m_cert_cb_alert;
     buf_t m_app;
+    uint16_t m_cr_sigalgs[32];             /* TLS <= 1.2 MatrixSSL server: supported_signature_algorithms of its CertificateRequest */
+    int m_cr_nsig, m_cr_seen;
+    int target_sig_not_used;               /* OpenSSL had to sign with the fallback (chain) scheme: MatrixSSL did not offer the target */
     uint32_t actions;
     char log[2048];
 } conn_t;
@@ -279,6 +318,19 @@ static unsigned int psk_client_cb(SSL *ssl, const char *hint, char *identity, un
     return C10_PSK_KEY_LEN;
 }
 
+static int cookie_gen_cb(SSL *ssl, unsigned char *cookie, unsigned int *len)
+{
+    (void) ssl;
+    memcpy(cookie, "mxv-c10-cookie-0123456789abcdef", 32);
+    *len = 32;
+    return 1;
+}
+static int cookie_verify_cb(SSL *ssl, const unsigned char *cookie, unsigned int len)
+{
+    (void) ssl;
+    return len == 32 && memcmp(cookie, "mxv-c10-cookie-0123456789abcdef", 32) == 0;
+}
+
 static X509 *der_x509(const unsigned char *p, size_t n)
 {
     const unsigned char *q = p;
@@ -296,6 +348,12 @@ static const char *ossl_sigalgs(const cell_t *c)
     if (m_presents && cred_chain[c->cred] != c->sig)
     {
         snprintf(tmp, sizeof(tmp), "%s:%s", sigs[c->sig].ossl, sigs[cred_chain[c->cred]].ossl);
+        if (c->ver == V_TLS13 && sigs[cred_chain[c->cred]].pk_nid == EVP_PKEY_RSA && !sigs[c->sig].is_rsa)
+        {
+            /* OpenSSL leaves rsa_pkcs1_* out of a TLS 1.3 CertificateRequest; an RSA-PSS entry is what tells the peer
+               that RSA-signed chains (the Ed25519 sample certificate has an RSA issuer) can be verified */
+            snprintf(tmp + strlen(tmp), sizeof(tmp) - strlen(tmp), ":rsa_pss_rsae_sha256");
+        }
         return tmp;
     }
     return sigs[c->sig].ossl;
@@ -370,8 +428,10 @@ static SSL_CTX *make_octx(const cell_t *c, char *why, size_t wn)
         else
         {
             snprintf(gl, sizeof(gl), "%s", gname[c->group]);
-            /* TLS <= 1.2 ECDSA: the certificate's curve must also be acceptable to the OpenSSL client */
-            if (c->ver != V_TLS13 && !o_is_server && cred_curve[c->cred] && cred_curve[c->cred] != c->group)
+            /* TLS <= 1.2: OpenSSL checks the curve of an ECDSA certificate MatrixSSL presents (server certificate, or client
+               certificate under client-auth) against its own groups list ("wrong curve"), so that curve is listed too,
+               after the target group (OpenSSL's preference order decides the ECDHE group in both roles) */
+            if (c->ver != V_TLS13 && (!o_is_server || c->cauth) && cred_curve[c->cred] && cred_curve[c->cred] != c->group)
             {
                 snprintf(gl + strlen(gl), sizeof(gl) - strlen(gl), ":%s", gname[cred_curve[c->cred]]);
             }
@@ -443,6 +503,13 @@ static SSL_CTX *make_octx(const cell_t *c, char *why, size_t wn)
         if (c->legacy) opts |= SSL_OP_LEGACY_SERVER_CONNECT;
     }
     if (dtls) opts |= SSL_OP_NO_QUERY_MTU;
+    if (c->noems) opts |= SSL_OP_NO_EXTENDED_MASTER_SECRET;
+    if (c->cookie && dtls && o_is_server)
+    {
+        opts |= SSL_OP_COOKIE_EXCHANGE;
+        SSL_CTX_set_cookie_generate_cb(ctx, cookie_gen_cb);
+        SSL_CTX_set_cookie_verify_cb(ctx, cookie_verify_cb);
+    }
     SSL_CTX_set_options(ctx, opts);
     if (!o_is_server && !c->legacy)
     {
@@ -567,7 +634,7 @@ static void dump_unit(conn_t *k, const char *dir, const unsigned char *p, int n)
     {
         return;
     }
-    fprintf(stderr, "  %s %d bytes:", dir, n);
+    fprintf(stderr, "  %s %d bytes (fnv %08x):", dir, n, (unsigned) fnv1a(p, (size_t) n, FNV0));
     while (off + hdr <= n)
     {
         int rl = (p[off + hdr - 2] << 8) | p[off + hdr - 1];
@@ -580,6 +647,49 @@ static void dump_unit(conn_t *k, const char *dir, const unsigned char *p, int n)
         off += hdr + rl;
     }
     fprintf(stderr, "\n");
+}
+
+/* TLS <= 1.2: remember which signature algorithms the MatrixSSL server's (plaintext) CertificateRequest offers */
+static void note_cert_request(conn_t *k, const unsigned char *p, int n)
+{
+    int off = 0, hdr = k->is_dtls ? 13 : 5, hh = k->is_dtls ? 12 : 4;
+    while (off + hdr <= n)
+    {
+        int rl = (p[off + hdr - 2] << 8) | p[off + hdr - 1];
+        const unsigned char *b = p + off + hdr, *e = b + rl;
+        if (off + hdr + rl > n)
+        {
+            break;
+        }
+        if (p[off] == SSL_RECORD_TYPE_HANDSHAKE && (!k->is_dtls || (p[off + 3] == 0 && p[off + 4] == 0)) && rl > hh + 3 && b[0] == SSL_HS_CERTIFICATE_REQUEST)
+        {
+            int nt, sl, i;
+            b += hh;
+            nt = b[0];
+            b += 1 + nt;
+            k->m_cr_seen = 1;
+            if ((k->c.ver == V_TLS12 || k->c.ver == V_DTLS12) && b + 2 <= e)
+            {
+                sl = (b[0] << 8) | b[1];
+                b += 2;
+                for (i = 0; i + 1 < sl && b + i + 1 < e && k->m_cr_nsig < 32; i += 2)
+                {
+                    k->m_cr_sigalgs[k->m_cr_nsig++] = (uint16_t) ((b[i] << 8) | b[i + 1]);
+                }
+            }
+            return;
+        }
+        off += hdr + rl;
+    }
+}
+static int cr_offers(const conn_t *k, uint16_t id)
+{
+    int i;
+    for (i = 0; i < k->m_cr_nsig; i++)
+    {
+        if (k->m_cr_sigalgs[i] == id) return 1;
+    }
+    return 0;
 }
 
 /* drain MatrixSSL output into OpenSSL's read BIO; returns number of units moved */
@@ -635,6 +745,10 @@ static int m_flush(conn_t *k)
             k->m_alert_sent_desc = out[14];
         }
         dump_unit(k, "matrix  ->", out, n);
+        if (k->c.role == R_MSRV && k->c.ver != V_TLS13 && k->c.cauth && !k->m_cr_seen)
+        {
+            note_cert_request(k, out, n);
+        }
         BIO_write(k->rbio, out, n);
         moved++;
         k->actions++;
@@ -960,6 +1074,7 @@ static void run_conn(conn_t *k, int conn, cres_t *r)
     k->m_alert_recv_lvl = k->m_alert_recv_desc = -1;
     k->m_alert_sent_lvl = k->m_alert_sent_desc = -1;
     k->m_cert_cb_calls = 0; k->m_cert_cb_alert = 0;
+    k->m_cr_nsig = k->m_cr_seen = 0;
     memset(&k->q, 0, sizeof(k->q));
 
     clog(k, " connection %d (%s)\n", conn, conn ? mname[c->resm] : "full handshake");
@@ -1001,6 +1116,14 @@ static void run_conn(conn_t *k, int conn, cres_t *r)
     pump(k);
     if (!(k->o_done && k->m_complete && matrixSslHandshakeIsComplete(k->m) == PS_TRUE) || k->o_fatal || k->m_err < 0)
     {
+        if (c->role == R_MSRV && c->cauth && c->sig != S_DEF && k->m_cr_seen && k->m_cr_nsig > 0 && !cr_offers(k, sigs[c->sig].id) &&
+            !cr_offers(k, sigs[cred_chain[c->cred]].id))
+        {
+            /* the OpenSSL client was restricted to schemes the MatrixSSL server's CertificateRequest does not list:
+               no client signature is possible, the cell is outside the mutually supported set */
+            set_res(r, "UNSUPPORTED", "MatrixSSL's CertificateRequest offers none of the signature schemes the OpenSSL client was restricted to (%s)", ossl_sigalgs(c));
+            return;
+        }
         classify_hs_failure(k, r, conn ? "resumed-handshake" : "handshake");
         return;
     }
@@ -1022,6 +1145,12 @@ static void run_conn(conn_t *k, int conn, cres_t *r)
         if (matrixSslGetNegotiatedCiphersuite(k->m, &mc) < 0 || mc != c->suite)
         {
             set_res(r, "wrong-suite", "MatrixSSL reports 0x%04x", mc);
+            return;
+        }
+        if (c->ver != V_TLS13 && SSL_get_extms_support(k->o) != !c->noems)
+        {
+            set_res(r, "extended-master-secret-mismatch", "SSL_get_extms_support=%d although OpenSSL %s it and MatrixSSL offers/accepts it by default",
+                SSL_get_extms_support(k->o), c->noems ? "did not negotiate" : "offered/accepted");
             return;
         }
         if (want_resumed)
@@ -1076,9 +1205,18 @@ static void run_conn(conn_t *k, int conn, cres_t *r)
                     SSL_get_signature_nid(k->o, &md);
                     if (pk != sigs[c->sig].pk_nid || md != sigs[c->sig].md_nid)
                     {
-                        set_res(r, "INTERNAL:openssl-signed-with-another-scheme", "OpenSSL signed with type %s digest %s, wanted %s",
-                            OBJ_nid2sn(pk) ? OBJ_nid2sn(pk) : "?", OBJ_nid2sn(md) ? OBJ_nid2sn(md) : "?", sigs[c->sig].name);
-                        return;
+                        const sig_t *ch = &sigs[cred_chain[c->cred]];
+                        if (c->role == R_MSRV && c->ver != V_TLS13 && k->m_cr_nsig > 0 && !cr_offers(k, sigs[c->sig].id) && pk == ch->pk_nid && md == ch->md_nid)
+                        {
+                            /* MatrixSSL's CertificateRequest does not list the target scheme; OpenSSL used the other offered one */
+                            k->target_sig_not_used = 1;
+                        }
+                        else
+                        {
+                            set_res(r, "INTERNAL:openssl-signed-with-another-scheme", "OpenSSL signed with type %s digest %s, wanted %s",
+                                OBJ_nid2sn(pk) ? OBJ_nid2sn(pk) : "?", OBJ_nid2sn(md) ? OBJ_nid2sn(md) : "?", sigs[c->sig].name);
+                            return;
+                        }
                     }
                 }
             }
@@ -1220,7 +1358,8 @@ static int run_cell(const cell_t *c, cres_t *r, char *why, size_t wn, uint32_t *
     k->is_dtls = ver_is_dtls(c->ver);
     buf_init(&k->o_app);
     buf_init(&k->m_app);
-    env_reset(0xC10);
+    env_reset(0xC10 + (uint64_t) g_seed);
+    orng_reset(fnv1a(c, sizeof(*c), FNV0) + (uint64_t) g_seed);
     if (world_open() < 0)
     {
         set_res(r, "INTERNAL:matrixSslOpen", "matrixSslOpen failed");
@@ -1255,6 +1394,15 @@ static int run_cell(const cell_t *c, cres_t *r, char *why, size_t wn, uint32_t *
     if (r->symptom[0])
     {
         ret = strncmp(r->symptom, "INTERNAL", 8) == 0 ? 2 : 1;
+        if (!strcmp(r->symptom, "UNSUPPORTED"))
+        {
+            snprintf(why, wn, "%s", r->detail);
+            ret = 3;
+        }
+    }
+    else if (k->target_sig_not_used)
+    {
+        r->min_bad_size = -1;      /* marker for the outcome label */
     }
 done:
     *actions += k->actions;
@@ -1270,16 +1418,17 @@ done:
 /* -------------------------------------------------------------------------------- descriptors, keys */
 static void cell_human(const cell_t *c, char *out, size_t n)
 {
-    snprintf(out, n, "%s %s %s group=%s%s cred=%s sig=%s %s %s%s", rname[c->role], ver_name(c->ver), suite_name(c->suite),
+    snprintf(out, n, "%s %s %s group=%s%s cred=%s sig=%s %s %s%s%s", rname[c->role], ver_name(c->ver), suite_name(c->suite),
         gname[c->group], c->hrr ? "+hrr" : "", c10_creds[c->cred].name, sigs[c->sig].name, c->cauth ? "client-auth" : "no-client-auth",
-        mname[c->resm], (c->role == R_MSRV && c->ver != V_TLS13) ? (c->legacy ? " openssl-legacy-server-connect" : " openssl-defaults") : "");
+        mname[c->resm], c->noems ? " no-ems" : (c->cookie ? " cookie-exchange" : ""),
+        (c->role == R_MSRV && c->ver != V_TLS13) ? (c->legacy ? " openssl-legacy-server-connect" : " openssl-defaults") : "");
 }
 static void cell_desc(const cell_t *c, char *out, size_t n)
 {
     char h[180];
     cell_human(c, h, sizeof(h));
-    snprintf(out, n, "r=%d;v=%d;s=%04x;g=%d;h=%d;k=%d;a=%d;c=%d;m=%d;l=%d (%s)", c->role, c->ver, c->suite, c->group, c->hrr, c->cred, c->sig,
-        c->cauth, c->resm, c->legacy, h);
+    snprintf(out, n, "r=%d;v=%d;s=%04x;g=%d;h=%d;k=%d;a=%d;c=%d;m=%d;l=%d;e=%d;q=%d (%s)", c->role, c->ver, c->suite, c->group, c->hrr, c->cred, c->sig,
+        c->cauth, c->resm, c->legacy, c->noems, c->cookie, h);
 }
 static int cell_parse(const char *s, cell_t *c)
 {
@@ -1291,6 +1440,12 @@ static int cell_parse(const char *s, cell_t *c)
         return -1;
     }
     c->suite = (uint16_t) su;
+    {
+        const char *e = strstr(s, ";e=");
+        c->noems = e ? atoi(e + 3) != 0 : 0;
+        e = strstr(s, ";q=");
+        c->cookie = e ? atoi(e + 3) != 0 : 0;
+    }
     if (c->role < 0 || c->role > 1 || c->ver < V_TLS11 || c->ver > V_DTLS12 || c->group < 0 || c->group >= G_N || c->cred < 0 || c->cred >= CR_N ||
         c->sig < 0 || c->sig >= S_N || c->resm < 0 || c->resm >= M_N || !suite_by_id(c->suite))
     {
@@ -1307,17 +1462,37 @@ static int base_cred_for(const cell_t *c)
     return CR_RSA;
 }
 
-/* Attribute a failing cell to the smallest feature that reproduces the failure: first the suite with
- * every other dimension at its base value, then each non-base dimension alone; else the combination. */
+static int first_of_class[V_NVER][16][3];   /* [ver][kx type][cipher class] -> suite id + 1 */
+static uint16_t base_suite[V_NVER][16];
+
+/* does the single-dimension cell t also fail when the version's base suite of the same key-exchange class is used? */
+static int fails_with_base_suite(const cell_t *t)
+{
+    cell_t u = *t;
+    cres_t r;
+    char why[200];
+    uint32_t act = 0;
+    uint16_t bs = base_suite[t->ver][suite_by_id(t->suite)->type];
+    if (!bs || bs == t->suite)
+    {
+        return 1;
+    }
+    u.suite = bs;
+    return run_cell(&u, &r, why, sizeof(why), &act) == 1;
+}
+
+/* Attribute a failing cell to the smallest feature that reproduces the failure: first the suite with every other
+ * dimension at its base value, then each non-base dimension alone (named together with the suite when the version's
+ * base suite does not show it); else the combination. */
 static void attribute(const cell_t *c, const cres_t *r0, char *feature, size_t fn, cres_t *rk)
 {
     cell_t b = *c, t;
     cres_t r;
-    char why[200];
+    char why[200], f[120] = "";
     uint32_t act = 0;
-    int rc;
+    int rc, found = 0;
     *rk = *r0;
-    b.group = G_DEF; b.hrr = 0; b.cred = base_cred_for(c); b.sig = S_DEF; b.cauth = 0; b.resm = M_NONE;
+    b.group = G_DEF; b.hrr = 0; b.cred = base_cred_for(c); b.sig = S_DEF; b.cauth = 0; b.resm = M_NONE; b.noems = 0; b.cookie = 0;
     if (!memcmp(&b, c, sizeof(b)))
     {
         snprintf(feature, fn, "%s", suite_name(c->suite));
@@ -1330,57 +1505,103 @@ static void attribute(const cell_t *c, const cres_t *r0, char *feature, size_t f
         *rk = r;
         return;
     }
-    if (c->group != G_DEF)
+    if (!found && c->group != G_DEF)
     {
         t = b; t.group = c->group; t.hrr = c->hrr;
         if (run_cell(&t, &r, why, sizeof(why), &act) == 1)
         {
-            snprintf(feature, fn, "group=%s%s", gname[c->group], c->hrr ? "+hrr" : "");
+            cell_t t2 = t;
+            cres_t r2;
+            found = 1;
             *rk = r;
-            return;
+            /* is it this group, or any group (then the retry itself is the feature)? */
+            t2.group = c->group == G_P256 ? G_P384 : G_P256;
+            if (c->hrr && run_cell(&t2, &r2, why, sizeof(why), &act) == 1)
+            {
+                snprintf(f, sizeof(f), "hello-retry-request");
+            }
+            else
+            {
+                snprintf(f, sizeof(f), "group=%s%s", gname[c->group], c->hrr ? "+hrr" : "");
+            }
         }
     }
-    if (c->cred != b.cred || c->sig != S_DEF)
+    if (!found && (c->cred != b.cred || c->sig != S_DEF))
     {
         t = b; t.cred = c->cred;
         if (c->cred != b.cred && run_cell(&t, &r, why, sizeof(why), &act) == 1)
         {
-            snprintf(feature, fn, "cred=%s", c10_creds[c->cred].name);
+            found = 1;
             *rk = r;
-            return;
+            snprintf(f, sizeof(f), "cred=%s", c10_creds[c->cred].name);
         }
-        t.sig = c->sig;
-        /* a signature scheme only matters when MatrixSSL or OpenSSL signs: keep client-auth as in the cell */
-        t.cauth = c->cauth;
-        if (c->sig != S_DEF && run_cell(&t, &r, why, sizeof(why), &act) == 1)
+        else
         {
-            snprintf(feature, fn, "cred=%s+sig=%s%s", c10_creds[c->cred].name, sigs[c->sig].name, c->cauth ? "+client-auth" : "");
-            *rk = r;
-            return;
+            t.sig = c->sig;
+            /* a signature scheme only matters when MatrixSSL or OpenSSL signs: keep client-auth as in the cell */
+            t.cauth = c->cauth;
+            if (c->sig != S_DEF && run_cell(&t, &r, why, sizeof(why), &act) == 1)
+            {
+                found = 1;
+                *rk = r;
+                snprintf(f, sizeof(f), "cred=%s+sig=%s%s", c10_creds[c->cred].name, sigs[c->sig].name, c->cauth ? "+client-auth" : "");
+            }
         }
     }
-    if (c->cauth)
+    if (!found && c->cookie)
+    {
+        t = b; t.cookie = 1;
+        if (run_cell(&t, &r, why, sizeof(why), &act) == 1)
+        {
+            found = 1;
+            *rk = r;
+            snprintf(f, sizeof(f), "hello-verify-request");
+        }
+    }
+    if (!found && c->noems)
+    {
+        t = b; t.noems = 1;
+        if (run_cell(&t, &r, why, sizeof(why), &act) == 1)
+        {
+            found = 1;
+            *rk = r;
+            snprintf(f, sizeof(f), "no-extended-master-secret");
+        }
+    }
+    if (!found && c->cauth)
     {
         t = b; t.cauth = 1;
         if (run_cell(&t, &r, why, sizeof(why), &act) == 1)
         {
-            snprintf(feature, fn, "client-auth");
+            found = 1;
             *rk = r;
-            return;
+            snprintf(f, sizeof(f), "client-auth");
         }
     }
-    if (c->resm != M_NONE)
+    if (!found && c->resm != M_NONE)
     {
         t = b; t.resm = c->resm;
         if (run_cell(&t, &r, why, sizeof(why), &act) == 1)
         {
-            snprintf(feature, fn, "resumption=%s", mname[c->resm]);
+            found = 1;
             *rk = r;
-            return;
+            snprintf(f, sizeof(f), "resumption=%s", mname[c->resm]);
         }
     }
-    snprintf(feature, fn, "%s+group=%s%s+cred=%s+sig=%s%s+%s", suite_name(c->suite), gname[c->group], c->hrr ? "+hrr" : "",
-        c10_creds[c->cred].name, sigs[c->sig].name, c->cauth ? "+client-auth" : "", mname[c->resm]);
+    if (found)
+    {
+        if (fails_with_base_suite(&t))
+        {
+            snprintf(feature, fn, "%s", f);
+        }
+        else
+        {
+            snprintf(feature, fn, "%s+%s", suite_name(c->suite), f);
+        }
+        return;
+    }
+    snprintf(feature, fn, "%s+group=%s%s+cred=%s+sig=%s%s+%s%s", suite_name(c->suite), gname[c->group], c->hrr ? "+hrr" : "",
+        c10_creds[c->cred].name, sigs[c->sig].name, c->cauth ? "+client-auth" : "", mname[c->resm], c->noems ? "+no-ems" : (c->cookie ? "+cookie" : ""));
 }
 
 static void run_case(void *ctx, mx_result_t *r)
@@ -1399,12 +1620,18 @@ static void run_case(void *ctx, mx_result_t *r)
         snprintf(r->outcome, sizeof(r->outcome), "%s:not-supported-by-both", ver_name(c->ver));
         r->nontrivial = 0;
         snprintf(r->what, sizeof(r->what), "%s", why);
+        {
+            char note[160];
+            snprintf(note, sizeof(note), "%s %s: %s", rname[c->role], ver_name(c->ver), why);
+            mx_note_skipped(note);
+        }
         r->trace_hash = fnv1a(r->outcome, strlen(r->outcome), FNV0);
         return;
     }
     if (rc == 0)
     {
-        snprintf(r->outcome, sizeof(r->outcome), "%s:%s:%s:%s:ok", rname[c->role], ver_name(c->ver), kx_label(suite_by_id(c->suite)->type), mname[c->resm]);
+        snprintf(r->outcome, sizeof(r->outcome), "%s:%s:%s:%s%s%s:ok%s", rname[c->role], ver_name(c->ver), kx_label(suite_by_id(c->suite)->type), mname[c->resm],
+            c->noems ? ":no-ems" : "", c->cookie ? ":cookie" : "", cr.min_bad_size == -1 ? "(fallback-sig)" : "");
         r->trace_hash = fnv1a(r->outcome, strlen(r->outcome), FNV0);
         return;
     }
@@ -1681,9 +1908,6 @@ static int credsigs_for(int ver, int type, credsig_t *out)
     return n;
 }
 
-static int first_of_class[V_NVER][16][3];   /* [ver][kx type][cipher class] -> suite id + 1 */
-static uint16_t base_suite[V_NVER][16];
-
 static int in_quick(const cell_t *c, const suite_t *su)
 {
     int rep = first_of_class[c->ver][su->type][cipher_class(su)] == su->id + 1;
@@ -1693,10 +1917,11 @@ static int in_quick(const cell_t *c, const suite_t *su)
     {
         /* every suite x (client-auth, resumption); all groups (+HRR) and all credentials/schemes on the base suite */
         if (base_dims) return 1;
-        if (!is_base || c->resm != M_NONE) return 0;
-        if (c->group != G_DEF) return c->cred == CR_RSA && c->sig == S_DEF && !c->cauth;   /* all groups, with and without HelloRetryRequest */
-        return 1;                                                                          /* all credentials and schemes x client-auth */
+        if (c->resm != M_NONE) return 0;
+        if (c->group != G_DEF) return c->cred == CR_RSA && c->sig == S_DEF && !c->cauth;   /* every suite x all groups, with and without HelloRetryRequest */
+        return is_base;                                                                    /* all credentials and schemes x client-auth */
     }
+    if (c->noems || c->cookie) return rep && base_dims && !c->cauth;  /* plain master secret / DTLS cookie: class representatives x resumption */
     if (rep && base_dims) return 1;                                   /* class representatives x client-auth x resumption */
     if (is_base && c->resm == M_NONE)
     {
@@ -1707,11 +1932,12 @@ static int in_quick(const cell_t *c, const suite_t *su)
     return 0;
 }
 
-static void build_cells(void)
+static const int vers[] = { V_TLS13, V_TLS12, V_TLS11, V_DTLS12, V_DTLS10 };
+
+/* which suites are in the matrix per version; class representatives and base suites (also needed by a replay) */
+static void build_classes(void)
 {
-    int ver, si, role;
-    static const int vers[] = { V_TLS13, V_TLS12, V_TLS11, V_DTLS12, V_DTLS10 };
-    int vi;
+    int ver, si, vi;
     for (vi = 0; vi < 5; vi++)
     {
         ver = vers[vi];
@@ -1729,7 +1955,7 @@ static void build_cells(void)
             }
             if (!su->oname[0])
             {
-                note_skip("%s suites (e.g. 0x%04x): OpenSSL 3 has no such cipher suite", kx_label(su->type), su->id);
+                note_skip("%s suites: OpenSSL 3 has no such cipher suites (asked by protocol id in SSL_get_ciphers of ALL:COMPLEMENTOFALL)", kx_label(su->type));
                 n_skipped_cells++;
                 continue;
             }
@@ -1754,11 +1980,20 @@ static void build_cells(void)
                 base_suite[ver][su->type] = su->id;   /* first AEAD suite of the class, else the first suite */
             }
         }
+    }
+}
+
+static void build_cells(void)
+{
+    int ver, si, role, vi;
+    for (vi = 0; vi < 5; vi++)
+    {
+        ver = vers[vi];
         for (si = 0; si < nsuites; si++)
         {
             suite_t *su = &suites[si];
             credsig_t cs[64];
-            int ncs, ci, g, hrr, cauth, resm, legacy, ed_ok, matrix_sig_ok[S_N];
+            int ncs, ci, g, hrr, cauth, resm, legacy, noems, ed_ok, matrix_sig_ok[S_N];
             char why[200];
             if ((ver == V_TLS13) != (su->type == CS_TLS13) || !su->oname[0] || !matrix_accepts(ver, su->id) || !openssl_accepts(ver, su->id, why, sizeof(why)))
             {
@@ -1781,6 +2016,7 @@ static void build_cells(void)
             for (cauth = 0; cauth < 2; cauth++)
             for (resm = 0; resm < M_N; resm++)
             for (legacy = 0; legacy < 2; legacy++)
+            for (noems = 0; noems < 3; noems++)       /* 0: defaults, 1: no extended master secret, 2: DTLS cookie exchange */
             {
                 cell_t c;
                 int has_kx_group = su->type == CS_ECDHE_RSA || su->type == CS_ECDHE_ECDSA || su->type == CS_TLS13;
@@ -1802,9 +2038,12 @@ static void build_cells(void)
                 if (resm == M_PSK13 && ver != V_TLS13) continue;
                 if ((resm == M_ID || resm == M_TICKET) && ver == V_TLS13) continue;
                 if (legacy && !(role == R_MSRV && ver != V_TLS13)) continue;
+                /* plain master secret: every suite x role x resumption x client-auth, other dimensions at base */
+                if (noems == 2 && !(ver_is_dtls(ver) && role == R_MCLI)) continue;
+                if (noems && (ver == V_TLS13 || g != G_DEF || cs[ci].sig != S_DEF || cs[ci].cred != (su->type == CS_PSK ? CR_NONE : su->type == CS_ECDHE_ECDSA ? CR_EC256 : CR_RSA))) continue;
                 memset(&c, 0, sizeof(c));
                 c.role = role; c.ver = ver; c.suite = su->id; c.group = g; c.hrr = hrr; c.cred = cs[ci].cred; c.sig = cs[ci].sig;
-                c.cauth = cauth; c.resm = resm; c.legacy = legacy;
+                c.cauth = cauth; c.resm = resm; c.legacy = legacy; c.noems = noems == 1; c.cookie = noems == 2;
                 if (!thorough && !in_quick(&c, su))
                 {
                     continue;
@@ -1848,15 +2087,16 @@ int main(int argc, char **argv)
     cfg.engine = "exhaustive enumeration of the configuration matrix; each cell = real MatrixSSL endpoint against in-process OpenSSL 3 libssl "
                  "(memory BIOs, datagram-wise for DTLS) in a forked child; first + resumed connection in the same child";
     cfg.rule = "cell = (role assignment, protocol version, cipher suite, key-exchange group[, forced HelloRetryRequest], credential, signature scheme, "
-               "client-auth, resumption mode[, OpenSSL client with/without SSL_OP_LEGACY_SERVER_CONNECT]); inside every cell payloads of every size class "
+               "client-auth, resumption mode, extended-master-secret on/off[, OpenSSL client with/without SSL_OP_LEGACY_SERVER_CONNECT]); inside every cell payloads of every size class "
                "are sent in both directions on the first and on the resumed connection. A cell is outside the property (not-supported-by-both) when "
                "OpenSSL refuses the configuration itself (unknown cipher/group/sigalg string, credential not loadable) or MatrixSSL cannot load the credential";
     cfg.assumptions[0] = "independent peer = the OpenSSL 3 libssl of the image, security level 0, one version of one implementation";
-    cfg.assumptions[1] = "MatrixSSL entropy and clock pinned (2024-01-01); OpenSSL verifies certificates at the same instant (X509_VERIFY_PARAM_set_time) but otherwise uses its own RNG and the real clock";
+    cfg.assumptions[1] = "MatrixSSL entropy and clock pinned (2024-01-01); OpenSSL's RNG is pinned per cell (RAND_set_rand_method, seed = hash of the cell) so every cell is reproducible; OpenSSL verifies certificates at the pinned instant (X509_VERIFY_PARAM_set_time) but otherwise sees the real clock";
     cfg.assumptions[2] = "lossless in-order transport; DTLS datagram boundaries are preserved in both directions; no retransmission timers fire";
     cfg.assumptions[3] = "signature scheme and group are constrained on the OpenSSL side (sigalgs / groups list) and verified from what OpenSSL reports; MatrixSSL runs with its defaults except TLS 1.3 client key-share selection";
     replay = mx_parse_args(argc, argv, &cfg);
     thorough = !strcmp(cfg.tier, "thorough");
+    g_seed = cfg.seed;
     cfg.bound = thorough ? "full matrix of mutually supported (role, version, suite, group(+HRR), credential, signature scheme, client-auth, resumption) cells, all payload sizes both directions"
                          : "class representatives: one suite per (version, key exchange, CBC-SHA1/CBC-SHA2/AEAD) x client-auth x resumption; all groups and all credential/signature-scheme "
                            "combinations on one suite per (version, key exchange); every TLS 1.3 suite; all payload sizes both directions in every cell";
@@ -1867,6 +2107,7 @@ int main(int argc, char **argv)
         return 2;
     }
     build_suites();
+    build_classes();
 
     if (replay)
     {
